@@ -83,6 +83,7 @@ def register(reg):
             'result.test_record.dut_id == self._test_options.default_dut_id) and '
             'implies(old(self.test_state.test_record.dut_id) is not None, result.test_record.dut_id == old(self.test_state.test_record.dut_id))')
   c.modifies('TestRecord.dut_id')
+  reg.replayers['TestExecutor.finalize'] = replay_finalize
 
   # ------------------------------------------------------------------ what execute() relies on (trusted, with reasons)
   PD = 'openhtf/core/phase_descriptor.py'
@@ -167,3 +168,20 @@ def register(reg):
   c = reg.contract('openhtf/core/test_record.py', 'CodeInfo.for_function', props=())
   c.param('func', 'val').returns('ref:CodeInfo').modifies()
   c.trusted('inspect.getsource of the trigger function (descriptive)')
+
+
+def replay_finalize(model, ob):
+  import types
+  from openhtf.core import test_executor
+  out = {'scenarios': []}
+  bad = False
+  for dut in (None, 'dut-7'):
+    rec = types.SimpleNamespace(dut_id=dut)
+    me = types.SimpleNamespace(test_state=types.SimpleNamespace(test_record=rec), _test_options=types.SimpleNamespace(default_dut_id='UNKNOWN_DUT'))
+    state = test_executor.TestExecutor.finalize(me)
+    want = dut if dut is not None else 'UNKNOWN_DUT'
+    if state is not me.test_state or rec.dut_id != want:
+      bad = True
+      out['scenarios'].append({'dut_id before finalize()': dut, 'prescribed after': want, 'actual': rec.dut_id})
+  out['reproduced'] = bad
+  return out
